@@ -7,6 +7,11 @@ from harness.core import pipeline, ser
 from . import core as K
 
 
+def log_json(log):
+    """invocation log as JSON-able data (objects by repr)"""
+    return json.loads(json.dumps([list(e) for e in log], default=repr))
+
+
 class DispatchStream(pipeline.Stream):
     name = "main"
     model_imports = "Dispatch"
@@ -45,8 +50,16 @@ class DispatchStream(pipeline.Stream):
                 rt.close()
         return obs
 
+    def echoed_object(self, case, obs):
+        """an echoing callable was entered with an argument that is not JSON data (an instance built by
+        the class translator): its result is a bean, which is the JsonClass model's business (C07)"""
+        for ev in obs["log"] + obs["drained"]:
+            if ev[0] == "call" and case["table"][ev[1]]["beh"][0] == "echo" and not K.is_plain_json(ev[2]):
+                return True
+        return False
+
     def encode(self, case, obs):
-        if not self.in_model:
+        if not self.in_model or self.echoed_object(case, obs):
             return None
         return K.encode_case(case, obs, obs["po"])
 
@@ -65,8 +78,7 @@ class DispatchStream(pipeline.Stream):
         return {"server_version": case["ver"], "dispatch": case.get("kind"), "pool": case.get("pool", 0),
                 "jsonclass": case.get("jsonclass", True), "body": case["body"],
                 "raised": None if obs["raised"] is None else "%s: %s" % (type(obs["raised"]).__name__, obs["raised"]),
-                "reply": obs["text"], "log": ser.to_json(K.to_model_val(obs["log"])),
-                "drained": ser.to_json(K.to_model_val(obs["drained"]))}
+                "reply": obs["text"], "log": log_json(obs["log"]), "drained": log_json(obs["drained"])}
 
     def to_replay(self, case):
         return ser.to_json(case)
